@@ -48,8 +48,15 @@ type Case struct {
 var fixedNow = gotime.Date(2024, 2, 29, 12, 30, 45, 123456789, gotime.UTC)
 
 // transcript runs the program on the given thread (nil: fresh) and renders everything observable.
-func transcript(p gen.Program, thread *starlark.Thread, tr *host.Trace) string {
+func transcript(p gen.Program, thread *starlark.Thread, tr *host.Trace, shared starlark.StringDict) string {
 	pre, th := host.Env(tr, "c03")
+	if shared == nil {
+		shared = buildShared()
+	}
+	for k, v := range shared {
+		pre[k] = v // the same frozen Go values in every execution of the case: "the same predeclared environment"
+	}
+	pre["attempt"] = starlark.NewBuiltin("attempt", attempt)
 	if thread != nil {
 		thread.Print = th.Print
 		th = thread
@@ -93,10 +100,68 @@ func transcript(p gen.Program, thread *starlark.Thread, tr *host.Trace) string {
 		var ee *starlark.EvalError
 		if errors.As(err, &ee) {
 			sb.WriteString(ee.Backtrace() + "\n")
+		} else {
+			sb.WriteString("--static-error--\n")
 		}
 	}
 	fmt.Fprintf(&sb, "steps=%d\n", th.ExecutionSteps()-before)
 	return sb.String()
+}
+
+// attempt(f) calls f() and returns "ok" or the error message: rejected mutations of shared frozen values
+// are part of the transcript without ending the program.
+func attempt(th *starlark.Thread, b *starlark.Builtin, args starlark.Tuple, kwargs []starlark.Tuple) (starlark.Value, error) {
+	var fn starlark.Callable
+	if err := starlark.UnpackPositionalArgs("attempt", args, kwargs, 1, &fn); err != nil {
+		return nil, err
+	}
+	if _, err := starlark.Call(th, fn, nil, nil); err != nil {
+		if strings.Contains(err.Error(), "Starlark computation cancelled") {
+			return nil, err
+		}
+		return starlark.String("error: " + err.Error()), nil
+	}
+	return starlark.String("ok"), nil
+}
+
+const sharedSrc = `
+SH_BIG = (1 << 70) + 12345
+SH_NEG = -(1 << 100) + 7
+SH_I64 = (1 << 40) + 3
+SH_NI64 = -(1 << 33) - 1
+SH_SMALL = 12345
+SH_FLOAT = 1.5e10
+SH_STR = "shared-string-longer-than-twelve"
+SH_BYTES = b"shared-bytes-longer-than-twelve"
+SH_LIST = [(1 << 65) + i for i in range(8)] + list(range(120))
+SH_NEST = [[1, 2], {"k": [3]}, (4, [5])]
+SH_DICT = {("shared-key-%d-with-a-long-suffix" % i if i % 2 else "s%d" % i): [i] for i in range(40)}
+SH_SET = set(["shared-elem-%d-with-a-long-suffix" % i for i in range(30)] + list(range(10)))
+SH_TUP = (1, "a", (1 << 80), [1, 2], {"k": 1})
+SH_RANGE = range(3, 1000, 7)
+def sh_fn(x, acc = [1, 2]):
+    return len(acc) + x
+def _mk():
+    hidden = [1, 2, 3]
+    def get(i = 0):
+        return hidden[i] + len(hidden)
+    return get
+sh_closure = _mk()
+SH_STRUCT = struct(big = SH_BIG, l = [1], d = {"a": 1})
+SH_BOUND = SH_LIST.index
+`
+
+// buildShared executes sharedSrc; the resulting globals are frozen values that a host would keep and hand to
+// every execution (a configuration module, constants): big ints, strings, containers, functions.
+func buildShared() starlark.StringDict {
+	th := &starlark.Thread{Name: "shared"}
+	pre := starlark.StringDict{"struct": starlark.NewBuiltin("struct", starlarkstruct.Make)}
+	g, err := starlark.ExecFileOptions(&syntax.FileOptions{Set: true}, th, "shared.star", sharedSrc, pre)
+	if err != nil {
+		panic("shared module: " + err.Error())
+	}
+	delete(g, "_mk")
+	return g
 }
 
 func digest(s string) string {
@@ -139,15 +204,23 @@ type workerReply struct {
 
 func checkDeterminism(c Case) error {
 	p := c.Prog
-	base := transcript(p, nil, &host.Trace{Limit: 4000})
+	sh := buildShared()
+	base := transcript(p, nil, &host.Trace{Limit: 4000}, sh)
 	if strings.Contains(base, "too many steps") {
 		vk.S.Discard()
 		return nil
+	}
+	if strings.Contains(base, "--static-error--") {
+		return fmt.Errorf("generated program is statically invalid (harness defect): %s", clip(base[strings.Index(base, "--error--"):]))
 	}
 	// classification
 	nt := false
 	if strings.Contains(p.Src, "# det:bigdict") {
 		vk.S.Class("big-dict-long-keys")
+		nt = true
+	}
+	if strings.Contains(p.Src, "# det:shared") {
+		vk.S.Class("shared-frozen-values")
 		nt = true
 	}
 	if strings.Contains(p.Src, "dir(") {
@@ -169,18 +242,18 @@ func checkDeterminism(c Case) error {
 	}
 
 	// (1) fresh thread again
-	if t2 := transcript(p, nil, &host.Trace{Limit: 4000}); t2 != base {
+	if t2 := transcript(p, nil, &host.Trace{Limit: 4000}, sh); t2 != base {
 		return fmt.Errorf("second run on a fresh thread differs: %s", firstDiff(base, t2))
 	}
 	// (2) same thread reused, after unrelated executions
 	th := &starlark.Thread{Name: "reused"}
-	if t3 := transcript(p, th, &host.Trace{Limit: 4000}); t3 != base {
+	if t3 := transcript(p, th, &host.Trace{Limit: 4000}, sh); t3 != base {
 		return fmt.Errorf("first run on a thread to be reused differs: %s", firstDiff(base, t3))
 	}
 	for _, src := range pollution {
 		starlark.ExecFileOptions(&syntax.FileOptions{}, th, "pollution.star", src, nil)
 	}
-	if t4 := transcript(p, th, &host.Trace{Limit: 4000}); t4 != base {
+	if t4 := transcript(p, th, &host.Trace{Limit: 4000}, sh); t4 != base {
 		return fmt.Errorf("run on a reused thread after other executions differs: %s", firstDiff(base, t4))
 	}
 	// (3) concurrent goroutines
@@ -193,7 +266,7 @@ func checkDeterminism(c Case) error {
 		go func(i int) {
 			defer wg.Done()
 			<-start
-			res[i] = transcript(p, nil, &host.Trace{Limit: 4000})
+			res[i] = transcript(p, nil, &host.Trace{Limit: 4000}, sh)
 		}(i)
 	}
 	close(start)
@@ -241,7 +314,7 @@ func TestWorker(t *testing.T) {
 		if err := json.Unmarshal(req, &c); err != nil {
 			return workerReply{"bad request: " + err.Error()}
 		}
-		return workerReply{transcript(c.Prog, nil, &host.Trace{Limit: 4000})}
+		return workerReply{transcript(c.Prog, nil, &host.Trace{Limit: 4000}, nil)}
 	})
 }
 
@@ -319,9 +392,88 @@ func detSection(t *rapid.T, opts gen.Opts) string {
 	return sb.String()
 }
 
+// sharedSection appends operations on the shared frozen values: pure operations (whose operands must come out
+// unchanged), iteration, calls, and mutation attempts (whose error text is part of the transcript).
+func sharedSection(t *rapid.T) string {
+	var sb strings.Builder
+	line := func(format string, args ...any) { fmt.Fprintf(&sb, format+"\n", args...) }
+	pick := func(xs ...string) string { return xs[vk.Uniform(t, len(xs))] }
+	ints := []string{"SH_BIG", "SH_NEG", "SH_I64", "SH_NI64", "SH_SMALL", "SH_STRUCT.big", "SH_LIST[3]", "SH_TUP[2]"}
+	num := func() string {
+		if vk.Chance(t, 0.75) {
+			return ints[vk.Uniform(t, len(ints))]
+		}
+		return fmt.Sprint(1 + vk.Uniform(t, 70))
+	}
+	small := func() string { return fmt.Sprint(1 + vk.Uniform(t, 70)) }
+	line("# det:shared")
+	line("def sh_main():")
+	n := 4 + vk.Uniform(t, 9)
+	for i := 0; i < n; i++ {
+		switch vk.Uniform(t, 9) {
+		case 0:
+			op := pick("+", "-", "*", "//", "%%", "&", "|", "^", "<", "<=", "==", "!=", ">", ">=")
+			line("    t(\"sh\", %s "+op+" %s)", num(), num())
+		case 1:
+			line("    t(\"sh\", %s %s %s)", num(), pick("<<", ">>"), small())
+		case 2:
+			a := num()
+			op := pick("+=", "-=", "*=", "//=", "%%=", "&=", "|=", "^=", ">>=", "<<=")
+			b := num()
+			if op == ">>=" || op == "<<=" {
+				b = small()
+			}
+			line("    x%d = %s", i, a)
+			line("    x%d "+op+" %s", i, b)
+			line("    t(\"sh\", [x%d, %s])", i, a)
+		case 3:
+			a := num()
+			line("    t(\"sh\", [%s, str(%s), repr(%s), float(%s), int(%s), bool(%s), \"%%d %%x %%o\" %% (%s, %s, %s), int(str(%s))])",
+				pick("-"+a, "~"+a, "+"+a, "abs("+a+")"), a, a, a, a, a, a, a, a, a)
+		case 4:
+			line("    t(\"sh\", %s)", pick("len(SH_LIST + [1])", "len(SH_LIST * 2)", "SH_LIST[2:9]", "sorted(SH_LIST, reverse = True)[:3]",
+				"list(reversed(SH_LIST))[:3]", "sorted(SH_SET, key = str)[:4]", "SH_TUP + (1,)", "len(SH_TUP * 3)", "SH_STR * 2", "SH_STR + \"x\"",
+				"SH_BYTES + b\"x\"", "len(SH_DICT | {\"n\": 1})", "len(dict(SH_DICT, n = 1))", "len(SH_SET | SH_SET.union([1, \"z\"]))",
+				"len(SH_SET & SH_SET.intersection([1, 2]))", "SH_NEST + SH_NEST", "[SH_NEST[0] + [9], SH_NEST[1] | {\"q\": 1}, SH_NEST[2] + (9,)]",
+				"SH_STR.upper() + SH_STR[3:7]", "SH_BYTES[2:5]", "list(SH_DICT.items())[:3]", "max(SH_LIST) - min(SH_LIST)", "SH_LIST.index(7)",
+				"SH_FLOAT * 3 - 1", "SH_RANGE[5:50:3]", "list(zip(SH_LIST, SH_TUP))", "sorted(SH_DICT)[:3]", "SH_DICT.get(\"s2\")"))
+		case 5:
+			line("    " + pick("for e%d in SH_LIST: pass", "c%d = len([e for e in SH_DICT])", "for k%d, v in SH_DICT.items(): pass", "for e%d in SH_SET: pass",
+				"c%d = len([c for c in SH_RANGE])", "for e%d in SH_NEST: pass", "c%d = len([e for e in SH_TUP if e])"), i)
+		case 6:
+			line("    t(\"sh\", attempt(%s))", pick("lambda: SH_LIST.append(1)", "lambda: SH_LIST.extend([1])", "lambda: SH_LIST.insert(0, 1)", "lambda: SH_LIST.pop()",
+				"lambda: SH_LIST.remove(7)", "lambda: SH_LIST.clear()", "lambda: SH_DICT.setdefault(\"n\", 1)", "lambda: SH_DICT.update(n = 1)", "lambda: SH_DICT.pop(\"s2\")",
+				"lambda: SH_DICT.clear()", "lambda: SH_DICT.popitem()", "lambda: SH_SET.add(99)", "lambda: SH_SET.discard(1)", "lambda: SH_SET.clear()", "lambda: SH_SET.pop()",
+				"lambda: SH_NEST[0].append(1)", "lambda: SH_NEST[1][\"k\"].append(1)", "lambda: SH_NEST[2][1].append(1)", "lambda: SH_TUP[3].append(1)",
+				"lambda: SH_STRUCT.l.append(1)", "lambda: SH_STRUCT.d.update(b = 2)", "lambda: SH_DICT[\"s2\"].append(1)", "lambda: sh_fn(1, [1])", "lambda: SH_BOUND(7)"))
+		case 7:
+			line("    def m%d():", i)
+			line("        " + pick("SH_LIST[0] = 1", "SH_DICT[\"s2\"] = 1", "SH_DICT[\"new\"] = 1", "l = SH_LIST\n        l += [1]", "d = SH_DICT\n        d |= {\"n\": 1}",
+				"s = SH_SET\n        s |= SH_SET", "SH_NEST[0][0] = 1", "SH_LIST[3] += 1", "SH_DICT[\"s2\"] += [1]"))
+			line("    t(\"sh\", attempt(m%d))", i)
+		case 8:
+			// mutation attempts alternating with iteration: under concurrency other threads are iterating the same values meanwhile
+			line("    for r%d in range(%d):", i, 5+vk.Uniform(t, 30))
+			line("        t(\"sh\", attempt(%s))", pick("lambda: SH_LIST.append(1)", "lambda: SH_DICT.update(n = 1)", "lambda: SH_SET.add(99)", "lambda: SH_DICT.clear()"))
+			line("        c%d = len([e for e in %s])", i, pick("SH_LIST", "SH_DICT", "SH_SET"))
+		}
+	}
+	line("    t(\"sh-final\", [SH_BIG, SH_NEG, SH_I64, SH_NI64, SH_SMALL, SH_FLOAT, SH_STR, SH_BYTES, SH_LIST[:10], len(SH_LIST), SH_NEST, len(SH_DICT), len(SH_SET), SH_TUP, sh_fn(0), sh_closure()])")
+	line("    t(\"sh-final\", [SH_STRUCT, list(SH_DICT.items())[:4], SH_RANGE, SH_LIST[100:]])")
+	line("    return 0")
+	line("SH_OUT = sh_main()")
+	return sb.String()
+}
+
 func genCase(t *rapid.T) Case {
 	p := gen.Generate(t, gen.Config{MaxStmts: 25, ErrRate: 0.01})
-	p.Src += detSection(t, p.Opts)
+	withDet := vk.Chance(t, 0.6)
+	if vk.Chance(t, 0.6) || !withDet {
+		p.Src += sharedSection(t)
+	}
+	if withDet {
+		p.Src += detSection(t, p.Opts) // may end in a deliberate failure, hence last
+	}
 	return Case{Prog: p}
 }
 
